@@ -8,6 +8,7 @@ mod simple;
 mod codec;
 mod replhist;
 mod eqhash;
+mod attrprops;
 mod treeprops;
 
 use runner::*;
@@ -29,8 +30,19 @@ fn main() {
   if std::env::var("VERIF_DEBUG").is_err() { std::panic::set_hook(Box::new(|_| {})); }
   let cfg = RunCfg { seed, cases, threads, driver, thorough, max_shrink: 4 };
   let t0 = std::time::Instant::now();
+  if id == "dump" {
+    // debug: print implementation and model observations of a case file (protocol request lines)
+    let f = arg(&args, "--case").expect("--case file");
+    let reqs: Vec<String> = std::fs::read_to_string(&f).unwrap().lines().filter(|l| !l.trim().is_empty() && !l.starts_with('#')).map(|l| l.to_string()).collect();
+    let c = case_of_reqs(&reqs).expect("case");
+    let oi = run_case_impl(&c);
+    let mut d = core::Driver::spawn(&cfg.driver);
+    let om = run_case_model(&mut d, &c);
+    for (k, ((i, op), (a, b))) in c.script.iter().zip(oi.iter().zip(om.iter())).enumerate() { println!("--- step {k} A{i}.{:?}\n impl : {:?}\n model: {:?}", op, a, b); }
+    return;
+  }
   if id == "hashdump" { for h in eqhash::hash_dump(seed, cases as usize) { println!("{h}"); } return; }
-  let result = if let Some(p) = treeprops::by_id(&id).or_else(|| match id.as_str() { "C14" => Some(eqhash::c14()), "C20" => Some(eqhash::c20()), _ => None }) {
+  let result = if let Some(p) = treeprops::by_id(&id).or_else(|| match id.as_str() { "C14" => Some(eqhash::c14()), "C20" => Some(eqhash::c20()), "C04" => Some(attrprops::c04()), "C06" => Some(attrprops::c06()), "C08" => Some(attrprops::c08()), "C09" => Some(attrprops::c09()), _ => None }) {
     let mut p = p;
     if let Some(dir) = arg(&args, "--corpus") { p.corpus.extend(load_corpus(&dir)); }
     if let Some(f) = arg(&args, "--replay") {
